@@ -290,6 +290,45 @@ def correspondence(ctx, broken_obligations=()):
                 v.coverage = cov
                 raise v
         cov["large_texts_implementation_only"] = len(big)
+    # C05_relex_normal_form evaluated on the implementation: lex a text, print its tokens (one blank between lexemes, a
+    # line feed after a comment, literals single-quoted with doubled quotes), lex the print: the same (type, value) list
+    # and no lexical error in the print
+    idx, _ = load_keywords()
+    STR, COM = idx["StringLiteral"], idx["Comment"]
+    rrng = random.Random(ctx.seed + 5)
+    sample = rrng.sample(cases, min(len(cases), 20000 if ctx.quick else 200000))
+    hb = diff.Engines.harness()
+
+    def toks_of(out):
+        tpart, epart = out.split("|")
+        ts = [t.split(":") for t in tpart.split(";")] if tpart else []
+        return [(int(t[0]), [int(x) for x in t[6].split(".")] if t[6] else []) for t in ts], epart
+    first = core.run_lines(hb, "lex", sample)
+    prints, keep = [], []
+    for c, o in zip(sample, first):
+        if o.startswith("PANIC") or o == "CRASH":
+            continue
+        lx, _ = toks_of(o)
+        text = []
+        for ty, v in lx:
+            if ty == STR:
+                text += [39] + [y for x in v for y in ((39, 39) if x == 39 else (x,))] + [39, 32]
+            elif ty == COM:
+                text += [59] + v + [10]
+            else:
+                text += v + [32]
+        prints.append(".".join(map(str, text)))
+        keep.append((c, lx))
+    second = core.run_lines(hb, "lex", prints)
+    for (c, lx), p, o in zip(keep, prints, second):
+        lx2, errs = toks_of(o) if not (o.startswith("PANIC") or o == "CRASH") else (None, o)
+        if lx2 != lx or errs:
+            r = "printing the tokens of the text and lexing the print does not give the same tokens back (C05_relex_normal_form): %r -> %r, errors %r" % (lx[:6], (lx2 or [])[:6], errs[:80])
+            path = core.write_replay(ctx.pid, ctx.seed, {"engine": "lex", "case": c[:4000], "case_readable": describe(c)[:200], "print": p[:2000], "observed": o[:600], "expected": r})
+            v = core.Violation(r, path, True)
+            v.coverage = cov
+            raise v
+    cov["relexed_prints"] = len(prints)
     cov["rule"] = ("all strings up to length %d over {a,B,_,1,.,space,LF,CR,',\",;,#,<,=,+,&,$} (exhaustive) plus random texts mixing "
                    "keywords in random case, identifiers, numbers, single/double-quoted literals (multi-line, escaped, unterminated), "
                    "comments, #n, operators, stray and non-ASCII characters, LF/CRLF/CR; non-trivial = at least 2 characters"
